@@ -1,5 +1,6 @@
 import MokapotVerif.Wire
 import MokapotVerif.Model.Fallback
+import MokapotVerif.Model.FallbackTail
 /-! Driver glue for `Model/Fallback.lean`. -/
 namespace Mk.Ops.Fallback
 open Mk V Mk.Fallback
@@ -45,10 +46,74 @@ def opBest : List V → Option V
         | none => atom "none")
   | _ => none
 
+/-- a collection on the wire: `[[raw labels] [[feature column]…] [model scores]]` -/
+def coll? : V → Option Coll
+  | list [ls, fs, sc] => do
+      pure { labels := ← toList? rawLabel? ls, feats := ← toList? (toList? toInt?) fs,
+             modelScores := ← toList? toInt? sc }
+  | _ => none
+
+def ofOut (out : List (List Int) × List Bool) : V :=
+  list [ofList (ofList ofInt) out.1, ofList ofBool out.2]
+
+def out? : V → Option (List (List Int) × List Bool)
+  | list [sc, ds] => do pure (← toList? (toList? toInt?) sc, ← toList? toBool? ds)
+  | _ => none
+
+/-- `fbtail [models] <thr> [colls]` → `[[scores per collection] [descs]]` | `reject-label` -/
+def opTail : List V → Option V
+  | [ms, t, cs] => do
+      let ms ← toList? model? ms
+      let thr ← toRat? t
+      let cs ← toList? coll? cs
+      some (match brewTail ms thr cs with
+        | some out => ofOut out
+        | none => atom "reject-label")
+  | _ => none
+
+/-- `fbtailspec [models] <thr> [colls] [[scores] [descs]]` → T/F: `TailSpec` on an output -/
+def opTailSpec : List V → Option V
+  | [ms, t, cs, o] => do
+      let ms ← toList? model? ms
+      let thr ← toRat? t
+      let cs ← toList? coll? cs
+      let o ← out? o
+      some (ofBool (tailSpecX ms thr cs o))
+  | _ => none
+
+/-- `fbtotal <thr> [colls] [scores per collection]` → accepted genuine targets summed over collections -/
+def opTotal : List V → Option V
+  | [t, cs, sc] => do
+      let thr ← toRat? t
+      let cs ← toList? coll? cs
+      let sc ← toList? (toList? toInt?) sc
+      some (ofNat (totalAcceptedX thr cs sc))
+  | _ => none
+
+/-- `fbentry <thr> [colls]` → `[[[ranking column] desc [i n]]…]` per collection | `none` -/
+def opEntry : List V → Option V
+  | [t, cs] => do
+      let thr ← toRat? t
+      let cs ← toList? coll? cs
+      some (match cs.mapM (fun c => (collBest thr c).map (fun b =>
+                list [ofList ofInt (rankColumn b.2.2 (featColumn b.1 c)), ofBool b.2.2, ofNat b.1, ofNat b.2.1])) with
+        | some l => list l
+        | none => atom "none")
+  | _ => none
+
+/-- `fbdirstart <passDesc> <passAsc>` → `[feat_pass desc]` -/
+def opDirStart : List V → Option V
+  | [a, b] => do
+      let a ← toNat? a
+      let b ← toNat? b
+      some (list [ofNat (dirStart a b).1, ofBool (dirStart a b).2])
+  | _ => none
+
 end Mk.Ops.Fallback
 
 namespace Mk.Ops
 open Mk.Ops.Fallback
 def fallbackOps : List (String × (List V → Option V)) :=
-  [("fbdecide", opDecide), ("fbpred", opPred), ("fbbest", opBest)]
+  [("fbdecide", opDecide), ("fbpred", opPred), ("fbbest", opBest), ("fbtail", opTail),
+   ("fbtailspec", opTailSpec), ("fbtotal", opTotal), ("fbentry", opEntry), ("fbdirstart", opDirStart)]
 end Mk.Ops
